@@ -273,7 +273,13 @@ Definition validate (r : racc) (v : tree) : res (racc * tree) :=
       let step1 : res tree :=
         if nil_b (m_bs pm) || list_eqb Nat.eqb (firstn bd (m_bs vm0)) (m_bs pm) then Ok v
         else match v with
-             | NonT _ p m => Ok (NonT New p (set_lock (set_bs m (m_bs pm)) false))   (* clone(False); batch_size = … *)
+             | NonT _ p m =>
+                 (* clone(False); batch_size = …: the dim names follow the new number of dims (cut / padded with None) *)
+                 Ok (NonT New p (set_lock (set_names (set_bs m (m_bs pm))
+                                             (match m_names m with
+                                              | None => None
+                                              | Some l => Some (firstn bd (l ++ repeat None bd))
+                                              end)) false))
              | _ => Unmodelled
              end in
       bind step1 (fun v1 =>
